@@ -148,8 +148,13 @@ func (st *State) callValue(fr *Frame, fnv Value, args []Value, retReg int, site 
 			return true, st.callBuiltin(fr, f.Builtin, args, site)
 		}
 		fn := f.Fn
-		if r, ok := st.redirect[fn.String()]; ok {
-			fn = r
+		if len(st.redirect) > 0 {
+			// stubs may be keyed by call site: "callee|callerName" takes precedence over "callee"
+			if r, ok := st.redirect[fn.String()+"|"+fr.fn.Name()]; ok {
+				fn = r
+			} else if r, ok := st.redirect[fn.String()]; ok {
+				fn = r
+			}
 		}
 		if h, ok := st.intrinsic(fn); ok {
 			return true, h(st, fr, fn, args)
@@ -554,6 +559,29 @@ func (st *State) execIf(fr *Frame, in *ssa.If) {
 			st.res.LazyMerges++
 			return
 		}
+		// merging was ruled out: decide feasibility of the other side and fork (no second, longer attempt)
+		other := notc
+		if !v {
+			other = c
+		}
+		okO, mO := st.feasible(other)
+		if !okO {
+			if v {
+				st.jump(fr, fr.block.Succs[0])
+			} else {
+				st.jump(fr, fr.block.Succs[1])
+			}
+			return
+		}
+		var k int
+		if v {
+			k = st.chooseWithModels([]*term.Node{c, notc}, []*term.Model{st.model, mO})
+		} else {
+			k = st.chooseWithModels([]*term.Node{notc, c}, []*term.Model{st.model, mO})
+			k = 1 - k
+		}
+		st.jump(fr, fr.block.Succs[k])
+		return
 	}
 	// feasibility of both sides
 	okT, mT := st.feasible(c)
